@@ -7,19 +7,23 @@ Offsets == Offs \cup {-1}     \* -1 = the context is already cancelled when the 
 Runners == {"ptrace", "unshare", "container", "container-sa"}
 Cases ==
   \* a sleeping program: only the cancellation can end the run
-       { [runner |-> r, prog |-> "sleep", at |-> a, nfiles |-> n, destroy |-> FALSE, rep |-> k] :
+       { [runner |-> r, prog |-> "sleep", at |-> a, nfiles |-> n, destroy |-> FALSE, frozen |-> FALSE, rep |-> k] :
             r \in Runners, a \in Offsets, n \in {3}, k \in 1..Reps }
-  \cup { [runner |-> r, prog |-> "sleep", at |-> a, nfiles |-> 3000, destroy |-> FALSE, rep |-> k] :
+  \cup { [runner |-> r, prog |-> "sleep", at |-> a, nfiles |-> 3000, destroy |-> FALSE, frozen |-> FALSE, rep |-> k] :
             r \in {"ptrace", "unshare"}, a \in Offsets, k \in 1..Reps }   \* (SCM_RIGHTS carries at most 253 descriptors)
   \* the launch window before the child's setsid (descriptor set-up of a long list comes first)
-  \cup { [runner |-> "ptrace", prog |-> "sleep", at |-> a, nfiles |-> 3000, destroy |-> FALSE, rep |-> 100 + k] :
+  \cup { [runner |-> "ptrace", prog |-> "sleep", at |-> a, nfiles |-> 3000, destroy |-> FALSE, frozen |-> FALSE, rep |-> 100 + k] :
             a \in {-1, 0, 1}, k \in 1..(6 * Reps) }
   \* a program that ends by itself at about the same time (genuine verdict or TLE)
-  \cup { [runner |-> r, prog |-> "quick", at |-> a, nfiles |-> 3, destroy |-> FALSE, rep |-> k] :
+  \cup { [runner |-> r, prog |-> "quick", at |-> a, nfiles |-> 3, destroy |-> FALSE, frozen |-> FALSE, rep |-> k] :
             r \in Runners, a \in Offsets \ {-1}, k \in 1..Reps }
   \* Destroy while a call is in flight (container only)
-  \cup { [runner |-> r, prog |-> p, at |-> a, nfiles |-> 3, destroy |-> TRUE, rep |-> k] :
+  \cup { [runner |-> r, prog |-> p, at |-> a, nfiles |-> 3, destroy |-> TRUE, frozen |-> FALSE, rep |-> k] :
             r \in {"container", "container-sa"}, p \in {"sleep", "quick", "open", "ping"}, a \in Offsets \ {-1}, k \in 1..Reps }
+  \* the same with the container init stopped (SIGSTOP) beforehand: the call is certainly still in flight
+  \* when Destroy comes, so it must return an error -- it cannot have completed
+  \cup { [runner |-> r, prog |-> p, at |-> a, nfiles |-> 3, destroy |-> TRUE, frozen |-> TRUE, rep |-> k] :
+            r \in {"container", "container-sa"}, p \in {"sleep", "open", "ping", "reset", "delete"}, a \in {0, 20}, k \in 1..Reps }
 ASSUME ndJsonSerialize("cases.ndjson", SetToSeq(Cases))
 VARIABLE x
 Init == x = 0
